@@ -90,9 +90,10 @@ def one_exec(cfg):
             if loss != "none":
                 # the cache loses (or gets a corrupted) object x after it was verified by the first checkout:
                 # the workspace copies of x are now the only ones
-                px = odb.oid_to_path(MD5["x"])
+                px = odb.oid_to_path(MD5["e" if loss == "remove-e" else "x"])
                 os.chmod(px, 0o644)
-                if loss == "remove-x":
+                if loss in ("remove-x", "remove-e"):
+                    # (remove-e: the zero-byte object is gone, the workspace's empty file is the only copy)
                     os.unlink(px)
                 else:
                     with open(px, "wb") as fh:
@@ -189,7 +190,7 @@ def run_case(case):
                 for relink in (False, True):
                     combos.append((target, vec, untracked, relink, "none"))
     for target in ("A", "B", "S", "N", "file:x"):
-        for loss in ("remove-x", "corrupt-x"):
+        for loss in ("remove-x", "corrupt-x", "remove-e"):
             # a linked workspace file *is* the cache object: losing it there is not a checkout matter
             if base["link"] == "symlink" or (base["link"] == "hardlink" and loss == "corrupt-x"):
                 continue
@@ -257,7 +258,7 @@ def run_case(case):
 
 LOPS = [("save", "p1"), ("save", "p2"), ("mod", "p1"), ("repl", "p1"), ("rm", "p1"), ("touch", "p1"),
         ("edit-inner", "p2"), ("edit-inner-u", "p2"), ("edit-inner-v", "p2"), ("add-inner", "p2"),
-        ("rename-inner", "p2"),
+        ("rename-inner", "p2"), ("add-inner-mtime0", "p2"),
         ("clean", ""), ("clean", "p1"), ("clean", "p2")]
 
 
@@ -325,6 +326,14 @@ def run_links(hist, trail=False):
                 elif k == "add-inner":
                     if os.path.isdir(p["p2"]):
                         wf(os.path.join(p["p2"], f"new{i}"), b"user-added")
+                        if "p2" in recorded:
+                            recorded["p2"] = True
+                elif k == "add-inner-mtime0":
+                    # a user file whose timestamp is the epoch (extracted from an archive with zeroed times)
+                    if os.path.isdir(p["p2"]):
+                        f0 = os.path.join(p["p2"], f"zero{i}")
+                        write_file(f0, b"user-added-with-mtime-0", stamp_it=False)
+                        os.utime(f0, ns=(0, 0))
                         if "p2" in recorded:
                             recorded["p2"] = True
                 elif k == "rename-inner":
